@@ -27,11 +27,15 @@ var ruleScopeS9 = &Rule{
 		var obs []Ob
 		n := 0
 		for _, f := range c.ModFns() {
-			if f.Signature.Recv() == nil || f.Blocks == nil {
+			// methods of ScopeInfo, and the plain functions of the package their scans are extracted into
+			// (findLastVisibleVar(list, loc)): the loop criteria below are what identifies a declaration scan
+			if f.Blocks == nil || f.Pkg == nil || f.Pkg.Pkg.Path() != commonPkg {
 				continue
 			}
-			if p, nm := namedPkgName(f.Signature.Recv().Type()); p != commonPkg || nm != "ScopeInfo" {
-				continue
+			if f.Signature.Recv() != nil {
+				if p, nm := namedPkgName(f.Signature.Recv().Type()); p != commonPkg || nm != "ScopeInfo" {
+					continue
+				}
 			}
 			ord := 0
 			for _, l := range allLoops(f) {
